@@ -165,3 +165,14 @@ Theorem decode_usable_rect_old_refuted :
             /\ decode_rect rect_old_witness = Err.
 Proof. exact C15_Total.decode_usable_rect_old_refuted. Qed.
 Print Assumptions decode_usable_rect_old_refuted.
+
+(** the vertex count a decoded polygon carries is the sum of its loop lengths; the encoder's
+    [numVertices == 0] shortcut, which slices an empty vertex table once per loop, is therefore
+    taken only for polygons whose loops are all vertex-less (re-encoding cannot index out of range) *)
+Theorem decoded_num_vertices_is_sum : forall p, num_vertices p = len (concat (map l_vertices (p_loops p))).
+Proof. exact num_vertices_sum. Qed.
+Print Assumptions decoded_num_vertices_is_sum.
+Theorem encode_shortcut_only_without_vertices : forall p, num_vertices p = 0 ->
+  Forall (fun l => l_vertices l = []) (p_loops p).
+Proof. exact num_vertices_zero. Qed.
+Print Assumptions encode_shortcut_only_without_vertices.
